@@ -73,7 +73,14 @@ func (p *Peers) Collect() (*WebRTCPeer, error) {
 	}
 	// Track new valid Snowflake in internal collection and pass along.
 	p.activePeers.PushBack(connection)
-	p.snowflakeChan <- connection
+	// The channel may be full of snowflakes nobody popped (they may even be
+	// closed already); do not keep collectLock forever when End is waiting.
+	select {
+	case p.snowflakeChan <- connection:
+	case <-p.melt:
+		connection.Close()
+		return nil, fmt.Errorf("Snowflakes have melted")
+	}
 	return connection, nil
 }
 
